@@ -546,6 +546,122 @@ def gen_drawsites(repo):
     return "".join(out)
 
 
+def const_values(repo):
+    """numeric `pub const NAME: usize = <literal>` of constants.rs"""
+    src = strip_comments(open(os.path.join(repo, "src/constants.rs")).read())
+    vals = {}
+    for m in re.finditer(r"pub\s+const\s+([A-Z_0-9]+)\s*:\s*usize\s*=\s*([\d_]+)\s*;", src):
+        vals[m.group(1)] = int(m.group(2).replace("_", ""))
+    return vals
+
+
+def subst_consts(text, vals):
+    return re.sub(r"\b[A-Z][A-Z_0-9]{2,}\b", lambda m: ("(%d as usize)" % vals[m.group(0)]) if m.group(0) in vals else m.group(0), text)
+
+
+def gen_verifier(repo):
+    """decision guards of the verifier (and the holder's interval check on e) as expressions / flags"""
+    ver = strip_comments(open(os.path.join(repo, "src/verifier.rs")).read())
+    prv = strip_comments(open(os.path.join(repo, "src/prover.rs")).read())
+    vals = const_values(repo)
+    out = [HEADER % "src/verifier.rs, src/prover.rs (decision guards)"]
+    i64, us = "i64", "usize"
+    # ---- range guard on the response for e
+    f = find_fn(ver, "_verify_equality")
+    g = ".unrecognised"
+    if f:
+        m = re.search(r"\bif\s+([^{}]+?)\s*\{\s*return\s+Err", f[1], re.S)
+        g = ".absent"
+        if m:
+            t = subst_consts(m.group(1), vals)
+            t = re.sub(r"proof\s*\.\s*e\s*\.\s*is_negative\s*\(\s*\)", "(esign < 0)", t)
+            t = re.sub(r"proof\s*\.\s*e\s*\.\s*num_bits\s*\(\s*\)\s*\?\s*as\s+usize", "ebits", t)
+            g = parse_bexpr(t, {"esign": (0, i64), "ebits": (1, us)})
+    out.append("/-- range guard on the response for `e` in `ProofVerifier::_verify_equality` (true = reject);\n    vars: 0 = sign of `proof.e` (-1, 0, 1), 1 = `proof.e.num_bits()` -/\ndef eRangeGuard : BExpr := %s\n\n" % g)
+    # ---- sub-proof count
+    f = find_fn(ver, "_check_verify_params_consistency")
+    g = ".unrecognised"
+    if f:
+        m = re.search(r"\bif\s+([^{}]+?)\s*\{\s*return\s+Err", f[1], re.S)
+        g = ".absent"
+        if m:
+            t = re.sub(r"proof\s*\.\s*proofs\s*\.\s*len\s*\(\s*\)", "plen", m.group(1))
+            t = re.sub(r"credentials\s*\.\s*len\s*\(\s*\)", "clen", t)
+            g = parse_bexpr(t, {"plen": (0, us), "clen": (1, us)})
+    out.append("/-- first guard of `_check_verify_params_consistency` (true = reject);\n    vars: 0 = `proof.proofs.len()`, 1 = `credentials.len()` -/\ndef proofLenGuard : BExpr := %s\n\n" % g)
+    # ---- omission of the non-revocation part: `else if credential.rev_reg.is_some() { return Err` inside the loop of verify
+    f = find_fn(ver, "verify", "ProofVerifier")
+    omission = False
+    active = False
+    if f:
+        ml = re.search(r"\bfor\s+idx\s+in\s+0\s*\.\.\s*proof\s*\.\s*proofs\s*\.\s*len\s*\(\s*\)\s*\{(.*)", f[1], re.S)
+        if ml:
+            body = ml.group(1)
+            omission = bool(re.search(r"\}\s*else\s+if\s+credential\s*\.\s*rev_reg\s*\.\s*is_some\s*\(\s*\)\s*\{\s*return\s+Err", body, re.S))
+            # the branch is taken iff all four are Some: proof part, revocation public key, registry, registry key
+            active = bool(re.search(r"if\s+let\s*\(\s*Some\(\w+\)\s*,\s*Some\(\w+\)\s*,\s*Some\(\w+\)\s*,\s*Some\(\w+\)\s*,?\s*\)\s*=\s*\(\s*proof_item\s*\.\s*non_revoc_proof\s*\.\s*as_ref\(\)\s*,\s*credential\s*\.\s*pub_key\s*\.\s*r_key\s*\.\s*as_ref\(\)\s*,\s*credential\s*\.\s*rev_reg\s*\.\s*as_ref\(\)\s*,\s*credential\s*\.\s*rev_key_pub\s*\.\s*as_ref\(\)\s*,?\s*\)", body, re.S))
+    out.append("/-- in the per-sub-proof loop of `ProofVerifier::verify`, the non-revocation branch (taken iff the proof part, the\n    revocation public key, the registry and the registry key are all present) is followed by\n    `else if credential.rev_reg.is_some() { return Err(..) }` -/\ndef omissionGuardInLoop : Bool := %s\n" % ("true" if omission else "false"))
+    out.append("/-- the non-revocation branch is guarded by exactly those four `Some`s -/\ndef nrBranchOnFourSomes : Bool := %s\n\n" % ("true" if active else "false"))
+    # ---- link between predicate response and equality response, inside the loop, before _verify_ne_predicate
+    f = find_fn(ver, "_verify_primary_proof")
+    link = False
+    if f:
+        ml = re.search(r"\bfor\s+ne_proof\s+in\s+primary_proof\s*\.\s*ne_proofs\s*\.\s*iter\s*\(\s*\)\s*\{(.*)", f[1], re.S)
+        if ml:
+            body = ml.group(1)
+            mi = re.search(r"\bif\s+\*?\s*m_hat\s*!=\s*ne_proof\s*\.\s*mj\s*\{\s*return\s+Err", body, re.S)
+            mv = re.search(r"_verify_ne_predicate", body)
+            mg = re.search(r"let\s+m_hat\s*=\s*primary_proof\s*\.\s*eq_proof\s*\.\s*m\s*\.\s*get\s*\(\s*&\s*ne_proof\s*\.\s*predicate\s*\.\s*attr_name\s*\)", body, re.S)
+            link = bool(mi and mv and mg and mg.start() < mi.start() < mv.start())
+    out.append("/-- `_verify_primary_proof`: inside `for ne_proof in primary_proof.ne_proofs.iter()`, `m_hat = eq_proof.m.get(&ne_proof.predicate.attr_name)`\n    is compared with `ne_proof.mj` (`!=` rejects) before `_verify_ne_predicate` is called for that very proof -/\ndef mjLinkInLoop : Bool := %s\n\n" % ("true" if link else "false"))
+    # ---- holder: interval of e
+    f = find_fn(prv, "_check_signature_correctness_proof")
+    g = ".unrecognised"
+    off_ok = False
+    if f:
+        off_ok = bool(re.search(r"let\s+e_offset\s*=\s*p_cred_sig\s*\.\s*e\s*\.\s*sub\s*\(\s*&\s*LARGE_E_START_VALUE\s*\)\s*\?\s*;", f[1]))
+        m = re.search(r"\bif\s+(e_offset[^{}]+?)\s*\{\s*return\s+Err", f[1], re.S)
+        g = ".absent"
+        if m:
+            t = subst_consts(m.group(1), vals)
+            t = re.sub(r"e_offset\s*\.\s*is_negative\s*\(\s*\)", "(osign < 0)", t)
+            t = re.sub(r"e_offset\s*\.\s*num_bits\s*\(\s*\)\s*\?\s*as\s+usize", "obits", t)
+            g = parse_bexpr(t, {"osign": (0, i64), "obits": (1, us)})
+    out.append("/-- holder-side interval guard in `Prover::_check_signature_correctness_proof` (true = reject);\n    vars: 0 = sign of `e_offset`, 1 = `e_offset.num_bits()` -/\ndef holderEGuard : BExpr := %s\n" % g)
+    out.append("/-- `e_offset = p_cred_sig.e - LARGE_E_START_VALUE` -/\ndef holderEOffsetIsEMinusStart : Bool := %s\n" % ("true" if off_ok else "false"))
+    # ---- common attributes: first value stored, later ones compared, per sub-proof, hidden attributes only
+    f = find_fn(ver, "verify", "ProofVerifier")
+    common_ok = False
+    hidden_ok = False
+    if f:
+        b = f[1]
+        store = re.search(r"let\s+x\s*=\s*entry\s*\.\s*get_mut\s*\(\s*\)\s*;\s*match\s+x\s*\{\s*Some\s*\(\s*v\s*\)\s*=>\s*\{\s*if\s+v\s*!=\s*m_hat\s*\{\s*return\s+Err", b, re.S)
+        first = re.search(r"None\s*=>\s*\{\s*\*\s*x\s*=\s*Some\s*\(\s*m_hat\s*\.\s*try_clone\s*\(\s*\)\s*\?\s*\)\s*;", b, re.S)
+        names = re.search(r"let\s+attr_names\s*:\s*Vec<String>\s*=\s*self\s*\.\s*common_attributes\s*\.\s*keys\s*\(\s*\)\s*\.\s*map\s*\(\s*\|s\|\s*s\.to_string\(\)\s*\)\s*\.\s*collect\s*\(\s*\)\s*;\s*for\s+attr_name\s+in\s+attr_names\s*\{", b, re.S)
+        missing = re.search(r"\}\s*else\s*\{\s*return\s+Err\s*\(\s*err_msg!\s*\(\s*ProofRejected\s*,\s*\"Blinded value for common attribute", b, re.S)
+        common_ok = bool(store and first and names and missing)
+        hid = re.search(r"let\s+is_hidden_attr\s*=\s*\(\s*credential\s*\.\s*credential_schema\s*\.\s*attrs\s*\.\s*contains\s*\(\s*&attr_name\s*\)\s*\|\|\s*credential\s*\.\s*non_credential_schema\s*\.\s*attrs\s*\.\s*contains\s*\(\s*&attr_name\s*\)\s*\)\s*&&\s*!\s*credential\s*\.\s*sub_proof_request\s*\.\s*revealed_attrs\s*\.\s*contains\s*\(\s*&attr_name\s*\)\s*;\s*if\s*!\s*is_hidden_attr\s*\{\s*return\s+Err", b, re.S)
+        hidden_ok = bool(hid and names and names.end() <= hid.start())
+    out.append("\n/-- common attributes in `ProofVerifier::verify`: for EVERY declared name (keys of `common_attributes`), per sub-proof, the first\n    response is stored (`None => *x = Some(m_hat)`), later ones are compared (`if v != m_hat { return Err`), a missing one is an error -/\ndef commonPassShape : Bool := %s\n" % ("true" if common_ok else "false"))
+    out.append("/-- … and a name that is not a hidden attribute of the sub-proof ((schema ∪ non-schema) ∖ revealed) is an error, checked first -/\ndef commonHiddenGuard : Bool := %s\n" % ("true" if hidden_ok else "false"))
+    # ---- non-revocation: the legacy field is read only when legacy proofs are accepted
+    f = find_fn(ver, "_verify_non_revocation_proof")
+    legacy_ok = False
+    if f:
+        legacy_ok = bool(re.search(r"let\s+mut\s+m2\s*=\s*bignum_to_group_element_reduce\s*\(\s*&\s*primary_proof\s*\.\s*eq_proof\s*\.\s*m2\s*\)\s*\?\s*;\s*let\s+mut\s+c\s*=\s*ch_num_z\s*\.\s*mod_neg\s*\(\s*\)\s*\?\s*;\s*if\s+accept_legacy\s*\{\s*if\s+let\s+Some\s*\(\s*sub_m2\s*\)\s*=\s*nonrev_proof\s*\.\s*x_list\s*\.\s*m2\s*\.\s*as_ref\s*\(\s*\)\s*\{\s*c\s*=\s*ch_num_z\s*;\s*m2\s*=\s*\*\s*sub_m2\s*;\s*\}\s*\}", f[1], re.S))
+    out.append("/-- `_verify_non_revocation_proof`: `m2` is the primary proof's response and `c = -c_H`, replaced by `x_list.m2` / `c_H`\n    only inside `if accept_legacy { if let Some(sub_m2) = … }` -/\ndef legacyM2OnlyWhenAccepted : Bool := %s\n" % ("true" if legacy_ok else "false"))
+    # ---- issuer: the blinded-secrets check folds over the DECLARED hidden attributes
+    iss = strip_comments(open(os.path.join(repo, "src/issuer.rs")).read())
+    f = find_fn(iss, "_check_blinded_credential_secrets_correctness_proof")
+    fold_ok = False
+    if f:
+        fold_ok = bool(re.search(r"let\s+u_cap\s*=\s*blinded_cred_secrets\s*\.\s*hidden_attributes\s*\.\s*iter\s*\(\s*\)\s*\.\s*fold\s*\(", f[1], re.S)) and \
+                  bool(re.search(r"blinded_cred_secrets_correctness_proof\s*\.\s*m_caps\s*\.\s*get\s*\(\s*attr\s*\)\s*\.\s*ok_or_else", f[1], re.S))
+    out.append("/-- `_check_blinded_credential_secrets_correctness_proof`: `u_cap` is folded over `blinded_cred_secrets.hidden_attributes`\n    (the declared set), each response taken from `m_caps.get(attr).ok_or_else(..)` -/\ndef blindedFoldOverDeclaredHidden : Bool := %s\n" % ("true" if fold_ok else "false"))
+    out.append(FOOTER)
+    return "".join(out)
+
+
 GENERATORS = {
     "Constants.lean": gen_constants,
     "Predicate.lean": gen_predicate,
@@ -553,6 +669,7 @@ GENERATORS = {
     "Merge.lean": gen_merge,
     "Tables.lean": gen_tables,
     "DrawSites.lean": gen_drawsites,
+    "Verifier.lean": gen_verifier,
 }
 
 
